@@ -212,9 +212,9 @@ def read_cases(path):
     return cases
 
 
-def harness_run(ctx, mode, n, profile='default', extra=()):
+def harness_run(ctx, mode, n, profile='default', extra=(), tag=None):
     """Run the harness (real nject) then the Lean model driver on its output. Cached per ctx.dir."""
-    tag = '%s-%s-%d' % (mode, profile, n)
+    tag = tag or '%s-%s-%d' % (mode, profile, n)
     impl = os.path.join(ctx.dir, 'impl-%s.txt' % tag)
     model = os.path.join(ctx.dir, 'model-%s.txt' % tag)
     if not (os.path.exists(impl) and os.path.exists(model)):
